@@ -3,11 +3,12 @@ import collections
 import math
 
 PROP = "C12"
-LEAN_MODS = ["Cte.Props.C12"]
+LEAN_MODS = ["Cte.Props.C12", "Cte.Props.C12Origins"]
 HARNESS = "c12"
 N = {"quick": 120, "thorough": 3000}
 CORRESPONDENCES = ["obstruction factor of every window from the per-hour inputs (definition; two decimals, tie-aware)",
-                   "sunlit fraction at sampled (window, hour) pairs by exact ray casting against every candidate occluder"]
+                   "sunlit fraction at sampled (window, hour) pairs by exact ray casting against every candidate occluder",
+                   "the sample points of a window (ray_origins_for_window) = Place.rayOrigins on the wall pose as (cos, sin) pairs, to 2 mm"]
 RULE = ("real models and generated box buildings with coherent positions (0..40 free-standing shades, set-back windows, windows "
         "and walls without position, skylights, 32 climate zones), each with a twin that has one more obstacle; "
         "non-trivial = at least one window with a factor below 1; distinct = distinct model JSON")
@@ -24,6 +25,16 @@ def fin(x):
 
 def compare(case, out):
     res = []
+    if case.get("op") == "origins":
+        a, b = case["impl"]["origins"], out.get("origins")
+        _stats["origin_sets"] += 1
+        if b is None or len(a) != len(b):
+            return [(CORRESPONDENCES[2], f"{len(a)} sample points in the implementation, {None if b is None else len(b)} in the model")]
+        for k, (p, q) in enumerate(zip(a, b)):
+            tol = 2e-3 * max(1.0, max(abs(c) for c in p))
+            if any(abs(x - y) > tol for x, y in zip(p, q)):
+                return [(CORRESPONDENCES[2], f"sample point {k}: implementation {p}, model {q}")]
+        return []
     f = case["impl"]["fshobst"]
     if "failed" in f or "windows" not in out:
         return res
@@ -54,6 +65,8 @@ def compare(case, out):
 
 def oracle(case):
     v = []
+    if case.get("op") == "origins":
+        return v
     f = case["impl"]["fshobst"]
     if "failed" in f:
         v.append({"what": f"computing the obstruction factors fails: {f['failed'][:160]}", "key": {"class": "fshobst-crash"}})
@@ -136,16 +149,22 @@ def oracle(case):
 
 
 def nontrivial(case):
+    if case.get("op") == "origins":
+        return len(case["impl"]["origins"]) > 0
     f = case["impl"]["fshobst"]
     return "failed" not in f and any(fin(x) and x < 0.995 for x in f.values())
 
 
 def branch(case, out):
+    if case.get("op") == "origins":
+        return "origins/" + ("canonical-polygon" if case["v0"] == [0.0, 0.0] and abs(case["trig"]["e"][1]) < 1e-9 else "other-polygon-frame")
     n = case.get("n_occluders", 0)
     return "occluders:" + ("0" if n == 0 else "1-30" if n <= 30 else ">30")
 
 
 def sample(case, out):
+    if case.get("op") == "origins":
+        return {"label": case["label"], "window": case["window"], "first_point": case["impl"]["origins"][:1], "model_first_point": (out or {}).get("origins", [])[:1]}
     f = case["impl"]["fshobst"]
     w = case["windows"][0] if case["windows"] else None
     return {"label": case["label"], "occluders": case.get("n_occluders"), "factors": dict(list(f.items())[:4]),
